@@ -38,7 +38,7 @@ def adv_size(payload):
     except IndexError:
         return None
 
-def oracle_sock(case, impl):
+def oracle_sock(case, impl, check_question=False):
     """C05/C01 direct checks on what the real proxy sent."""
     f = case.split(" ")
     proto, payload = f[0], unhex(f[1])
@@ -56,6 +56,25 @@ def oracle_sock(case, impl):
         return None   # not a well-formed query of the harness's own shape: only the model diff applies
     if f[2] in ("S", "E", "T") and len(rep) >= 2 and rep[:2] != payload[:2]:
         return "reply carries another ID"   # (an 'H' outcome is an upstream message with its own bytes)
+    if check_question and f[2] in ("E", "T"):
+        # resolution failed: a SERVFAIL carrying this query's question, byte for byte
+        qend = 12
+        while payload[qend] != 0:
+            qend += 1 + payload[qend]
+        qend += 5
+        if not (len(rep) >= 12 and rep[2] & 0x80 and rep[3] & 0x0f == 2):
+            return "resolution failed but the reply is not a SERVFAIL"
+        if rep[12:qend] != payload[12:qend] or rep[4:6] != b"\x00\x01":
+            # a label containing '.' is re-split at the dot when the proxy rebuilds the question
+            # (recorded finding dotted-label, same root cause as C06's cache-key alias)
+            off, dotted = 12, False
+            while payload[off] != 0:
+                if b"." in payload[off + 1:off + 1 + payload[off]]:
+                    dotted = True
+                off += 1 + payload[off]
+            if dotted:
+                return "KNOWN:dotted-label: SERVFAIL question differs for a label containing '.'"
+            return "SERVFAIL does not carry the query's question"
     up = None
     if f[2] == "S":
         up = int(f[3])
